@@ -224,6 +224,25 @@ def run(out: Outcome) -> None:
                 out.violation(f"streaming MMD returns {float(r.distance)!r} at update {t}, the batch value on the last {w} values is {want!r}", rep)
                 break
         out.case({"streaming": True, "window": w, "dim": dim, "cs": cs, "n": len(stream), "h": hash(ref.tobytes()) & 0xFFFFFF})
+    # the caller REUSES ONE BUFFER for successive values (`buf[:] = v; det.update(value=buf)`, the pattern of a reader that fills a preallocated row): the values that
+    # count are those passed at each call - the window must not change when the caller overwrites its buffer afterwards
+    for _ in range(3):
+        w, dim, sigma = rng.randint(2, 5), rng.choice([1, 2, 3]), 1.0
+        refb = sample(rng, rng.randint(4, 9), dim)
+        stream = [sample(rng, 1, dim)[0] for _ in range(w + rng.randint(1, 6))]
+        det = MMDStreaming(window_size=w, kernel=partial(rbf_kernel, sigma=sigma))
+        det.fit(X=refb)
+        buf = np.zeros(dim)
+        rep = {"window": w, "dim": dim, "sigma": sigma, "ref": refb.tolist(), "stream": [x.tolist() for x in stream], "kind": "one buffer reused for every update"}
+        for t, v in enumerate(stream, 1):
+            buf[:] = v
+            r, _ = det.update(value=buf)
+            if r is not None:
+                want = unbiased(refb, np.array(stream[t - w: t]), sigma)
+                if abs(float(r.distance) - want) > 1e-9:
+                    out.violation(f"streaming MMD fed from ONE reused buffer returns {float(r.distance)!r} at update {t}, the batch value on the last {w} values passed is {want!r}", rep)
+                    break
+        out.case({"streaming": True, "reused_buffer": True, "window": w, "dim": dim})
     # the documented use of the streaming detector: a 1-D reference and SCALAR updates (`update(value: Union[int, float])`) - the values as Python floats / ints (from a
     # list, a CSV reader, a JSON message), as NumPy scalars of several widths (elements of an array) and as 0-d arrays; all multiples of 1/8 so that every type holds
     # exactly the same numbers, and the result must be the batch value of those numbers
